@@ -450,6 +450,27 @@ class Engine:
             return ("upd", v, i, self.update(old, rest, val))
         if k == "down":
             return self.update(v, rest, val)
+        if k == "srange":
+            lo, hi = e[1], e[2]
+            L = self.lens
+            n = seq_len(v, L)
+            if hi is None and n is not None:
+                hi = n
+            if rest or not (isinstance(lo, int) and isinstance(hi, int)) or n is None or not (0 <= lo <= hi <= n):
+                raise Unsupported("range write %r" % (e,))
+            parts = []
+            if lo > 0:
+                parts += seq_slice(v, 0, lo, L)
+            parts.append(val[1] if val[0] == "copied" else val)
+            if hi < n:
+                parts += seq_slice(v, hi, n, L)
+            return seq_concat(parts, L)
+        if k == "vidx" and v[0] == "concat" and e[1][0] == "int" and not rest:
+            # single element write into a piecewise buffer
+            i = e[1][1]
+            n = seq_len(v, self.lens)
+            if n is not None and 0 <= i < n:
+                return seq_concat(seq_slice(v, 0, i, self.lens) + [("array", (val,))] + seq_slice(v, i + 1, n, self.lens), self.lens)
         if k == "vidx":
             i = e[1]
             if v[0] == "repeat" and i[0] == "int" and isinstance(v[2], int) and 0 <= i[1] < v[2] <= 64:
@@ -1575,3 +1596,78 @@ def contains_term(t, needle, _memo=None):
         return False
     _memo.add(id(t))
     return any(contains_term(x, needle, _memo) for x in t if isinstance(x, tuple))
+
+
+# ---------------------------------------------------------------- piecewise sequences (byte buffers assembled by range writes)
+def seq_len(v, lens=None):
+    """Static length of a sequence-valued term, when known."""
+    k = v[0]
+    if k == "array":
+        return len(v[1])
+    if k == "repeat" and isinstance(v[2], int):
+        return v[2]
+    if k == "concat":
+        tot = 0
+        for p in v[1]:
+            n = seq_len(p, lens)
+            if n is None:
+                return None
+            tot += n
+        return tot
+    if k == "bytes":
+        return lens.get(v) if lens is not None else None
+    if k == "slice_of" and v[2][0] == "int" and v[3][0] == "int":
+        return v[3][1] - v[2][1]
+    if k in ("copied", "refv", "box"):
+        return seq_len(v[1], lens)
+    if k == "digest":
+        return 32
+    return None
+
+
+
+
+def seq_slice(v, lo, hi, lens=None):
+    """List of parts making up v[lo..hi] (lo < hi, within bounds)."""
+    if lo >= hi:
+        return []
+    k = v[0]
+    if k == "array":
+        return [("array", v[1][lo:hi])]
+    if k == "repeat":
+        return [("repeat", v[1], hi - lo)]
+    if k == "concat":
+        out = []
+        off = 0
+        for p in v[1]:
+            n = seq_len(p, lens)
+            a, b = max(lo, off), min(hi, off + n)
+            if a < b:
+                out += [p] if (a == off and b == off + n) else seq_slice(p, a - off, b - off, lens)
+            off += n
+        return out
+    n = seq_len(v, lens)
+    if n is not None and lo == 0 and hi == n:
+        return [v]
+    return [("slice_of", v, ("int", lo), ("int", hi))]
+
+
+def seq_concat(parts, lens=None):
+    flat = []
+    for p in parts:
+        if p[0] == "concat":
+            flat += list(p[1])
+        elif seq_len(p, lens) == 0:
+            continue
+        else:
+            flat.append(p)
+    # merge adjacent literal arrays
+    out = []
+    for p in flat:
+        if out and out[-1][0] == "array" and p[0] == "array":
+            out[-1] = ("array", out[-1][1] + p[1])
+        else:
+            out.append(p)
+    if len(out) == 1:
+        return out[0]
+    return ("concat", tuple(out))
